@@ -41,7 +41,10 @@ def _sched_case(draw):
     tables = {p: draw(st.lists(st.sampled_from(FACTOR_POOL[p]), min_size=1, max_size=5)) for p in scheduled}
     step_op = st.fixed_dictionaries({'op': st.just('step'), 'k': st.one_of(st.none(), st.integers(0, 12), st.integers(0, 10 ** 6))})
     set_op = st.fixed_dictionaries({'op': st.just('set_steps'), 'k': st.integers(0, 50)})
-    ops = draw(st.lists(st.one_of(step_op, step_op, step_op, set_op), min_size=1, max_size=12))
+    # a step during which the factor function of one scheduled parameter raises (the exception must reach the caller; what the other
+    # parameters look like afterwards is not specified, so the model re-reads them; LATER steps must again apply exactly one factor each)
+    fail_op = st.fixed_dictionaries({'op': st.just('step_raises'), 'k': st.one_of(st.none(), st.integers(0, 12)), 'who': st.integers(0, 5)})
+    ops = draw(st.lists(st.one_of(step_op, step_op, step_op, step_op, set_op, fail_op), min_size=1, max_size=12))
     return {'kind': 'sched', 'init': init, 'scheduled': sorted(scheduled), 'callables': sorted(callables),
             'tables': tables, 'ops': ops}
 
@@ -76,8 +79,8 @@ class C19(Prop):
     examples = {'quick': 700, 'thorough': 3000}
     shards = {'quick': 2, 'thorough': 16}
     enum_shards = {'quick': 2, 'thorough': 16}
-    required_labels = {'quick': ['kind=sched', 'kind=exp', 'refused=True', 'nontrivial=True'],
-                       'thorough': ['kind=sched', 'kind=exp', 'refused=True', 'nontrivial=True']}
+    required_labels = {'quick': ['kind=sched', 'kind=exp', 'refused=True', 'nontrivial=True', 'failed_step=True'],
+                       'thorough': ['kind=sched', 'kind=exp', 'refused=True', 'nontrivial=True', 'failed_step=True']}
 
     fuzz = {'thorough': {'runs': 20000, 'max_time': 60, 'procs': 4}}
 
@@ -176,12 +179,15 @@ class C19(Prop):
             pre = KFACPreconditioner(model, **kwargs)
 
         calls: dict[str, list[int]] = {p: [] for p in scheduled}
+        failing = {'who': None}
 
         def table_fn(p):
             t = tables[p]
 
             def fn(step):
                 calls[p].append(step)
+                if failing['who'] == p:
+                    raise RuntimeError('factor function failed (injected by the harness)')
                 return t[step % len(t)]
             return fn
 
@@ -218,6 +224,23 @@ class C19(Prop):
         explicit_diff = False
         nsteps = 0
         for idx, op in enumerate(case['ops']):
+            if op['op'] == 'step_raises':
+                if not scheduled:
+                    continue
+                failing['who'] = scheduled[op['who'] % len(scheduled)]
+                try:
+                    sched.step() if op['k'] is None else sched.step(op['k'])
+                except RuntimeError as e:
+                    if 'injected by the harness' not in str(e):
+                        return violation(f'op {idx}: step() raised {type(e).__name__}: {e}', 'exception')
+                else:
+                    return violation(f'op {idx}: the exception raised by the factor function of {failing["who"]} did not reach the caller', 'exception-swallowed')
+                finally:
+                    failing['who'] = None
+                for p in PARAMS:                      # unspecified after a failed step: adopt what is there
+                    model_vals[p] = getattr(pre, p)
+                labels['failed_step'] = True
+                continue
             if op['op'] == 'set_steps':
                 with warnings.catch_warnings():
                     warnings.simplefilter('ignore')
